@@ -66,7 +66,7 @@ def case_payload(c: Case, impl: Optional[Trace], model: Optional[Trace], extra: 
         'grammar_def': grammar_to_json(c.g),
         'grammar': c.g.proto_lines(),
         'grammar_cpp': [f"n{nid}: {nd.cpp} [{nd.flavour}]" for nid, nd in sorted(c.g.nodes.items())],
-        'config': {k: getattr(c.cfg, k) for k in ('root', 'a', 'm', 'eol', 'lazy', 'unwind', 'fam', 'tree', 'mi')},
+        'config': {k: getattr(c.cfg, k) for k in ('root', 'a', 'm', 'eol', 'lazy', 'unwind', 'fam', 'tree', 'mi', 'cov')},
         'init': list(c.init),
         'input_hex': c.data.hex(),
         'observed': {'events': impl.events, 'result': impl.result, 'o': impl.o, 'tree': impl.tree} if impl else None,
@@ -325,7 +325,11 @@ def run_engine(prop: str, tier: str, lean_modules: List[str], profiles: List[Pro
             if not agree:
                 mismatches += 1
                 if mismatches <= 3 and not hits:
-                    v.broke(f"correspondence: model and implementation disagree on case {c.cid} of profile {prof.name}: "
+                    fd = next((f"event {k}: model '{a}' / implementation '{b}'" for k, (a, b) in enumerate(zip(me + ['<end>'], ie + ['<end>'])) if a != b), None)
+                    if fd is None:
+                        fd = (f"result: model '{m.result}' / implementation '{i.result}'" if m.result != i.result else
+                              f"O line: model '{m.o}' / implementation '{i.o}'" if m.o != i.o else "tree or surviving actions")
+                    v.broke(f"correspondence: model and implementation disagree on case {c.cid} of profile {prof.name} (first difference — {fd}; input {c.data.hex() or '-'}, {c.cfg}): "
                             + json.dumps(case_payload(c, i, m, {}))[:6000])
                 elif not hits and mismatches == 4:
                     v.broke("correspondence: further disagreements suppressed")
